@@ -15,3 +15,6 @@ def run(ctx):
             multi.append((len(classes), classes))
     tokenizer(ctx, None, ['tok.value', 'tok.consumed'], f'integer spellings -?[0-9]{{L}} for L in {lens} followed by a terminator byte; every digit value free',
               variants=('nocb',), partition=0, multi=multi)
+    from ..kani import kani_family
+    kani_family(ctx, 'value.usize', 'From<usize> / TryFrom<NumberValue> for usize are exact (no detour through floating point)',
+                [('k_usize_roundtrip', 'usize-roundtrip', 'usize <-> NumberValue')], ['json_value.rs'], timeout_s=600)
